@@ -46,7 +46,8 @@ func pathCase(id int, seed int64, out *json.Encoder) {
 	present := map[int]bool{}
 	lo, hi := 1, n
 	for k := lo; k <= hi; k++ {
-		if rng.Intn(10) != 0 {
+		// (half of the keys of layer >= 3 stay absent, so that probes can insert them between their neighbours)
+		if rng.Intn(10) != 0 && (intLayerRef(int64(k), bf) < 3 || rng.Intn(2) == 0) {
 			if err := m.Insert(ctx, k, k); err != nil {
 				panic(err)
 			}
@@ -86,7 +87,11 @@ func pathCase(id int, seed int64, out *json.Encoder) {
 		case 1: // far above the maximum, high layer
 			return pow(2+rng.Intn(5))*(1+rng.Intn(3)) + hi
 		case 2: // inside, a multiple of a power of the branch factor
-			return pow(1+rng.Intn(4)) * (1 + rng.Intn(hi/pow(1)+1))
+			e := 1 + rng.Intn(5)
+			if pow(e) > hi {
+				e = 1 + rng.Intn(3)
+			}
+			return pow(e) * (1 + rng.Intn(hi/pow(e)+1))
 		case 3:
 			return -1 - rng.Intn(5)
 		default:
